@@ -42,6 +42,21 @@ def _gaps(text):
     return [g for g in T.gaps(text) if g[0] not in numeric_edges and g[0] not in line_comment_ends and g[0] not in inside_block]
 
 
+def _closed_sets(got):
+    """closed literal sets stay closed whatever was accepted"""
+    for t in got[2]:
+        for ix in t[9]:
+            if ix[4] is not None and ix[4] not in ('brin', 'btree', 'gin', 'gist', 'hash', 'spgist'):
+                return 'an unknown index type was accepted'
+    for r in got[3]:
+        if r[1] not in ('>', '<', '-', '<>'):
+            return 'an unknown reference operator was accepted'
+        for act in (r[5], r[6]):
+            if act is not None and act not in ('no action', 'restrict', 'cascade', 'set null', 'set default'):
+                return 'an unknown reference action was accepted'
+    return ''
+
+
 def insertion(element, batch, K, size=4):
     text = T.ELEMENTS[element]
     spans = [(p, p, f'{a}|{b}') for p, a, b in batches(_gaps(text), size)[batch]]
@@ -59,7 +74,7 @@ def insertion(element, batch, K, size=4):
         for x, y in zip(n, nbase):
             if x < y:
                 return 'a document with a stray fragment was accepted and part of the document was dropped'
-        return ''
+        return _closed_sets(got)
 
     return mutation(element, spans, K, GARBAGE, judge, first_dom=GARBAGE0, extra_bounds={'family': 'insertion'})
 
@@ -134,7 +149,7 @@ def instances(tier):
     for ei, element in enumerate(T.ELEMENTS):
         nb = _count(element, 'insertion')
         for b in range(nb):
-            if quick and (b + ei) % stride['insertion'] != 0:
+            if quick and (b + ei) % stride['insertion'] != 0 and b != nb - 1:      # the last batch holds the end-of-input position
                 continue
             out.append({'name': f'ins/{element}/b{b}/K1', 'factory': 'insertion', 'params': {'element': element, 'batch': b, 'K': 1},
                         'timeout': T1, 'native_limit': 60})
